@@ -28,3 +28,21 @@ Definition decode_alloc_pinned (bs : bytes) : N :=
 Theorem C19_pinned_refuted : exists bs, nlen bs = 6 /\ decode_alloc_pinned bs = 2147549192.
 Proof. exists [255; 255; 255; 255; 255; 127]. split; vm_compute; reflexivity. Qed.
 Print Assumptions C19_pinned_refuted.
+
+(* ---- the Go arithmetic this property rests on, AS TRANSLATED FROM THE CURRENT SOURCES by tools/gotrans
+   (gen/Funcs.v, operators in GoSem.v), equals the model's, for all values of the Go types ---- *)
+From Coq Require Import ZArith NArith Bool.
+From Pogreb Require Import Base Record Index GoSem FuncsIndexCheck FuncsRecordCheck FuncsLogCheck FuncsFSCheck.
+From Pogreb.gen Require Funcs Consts.
+Import Funcs.
+Open Scope Z_scope.
+
+Theorem C19_go_next_sizes :
+  forall ks w fsize off : N,
+  (ks < 2 ^ 16)%N -> (w < 2 ^ 32)%N -> (off <= fsize)%N -> (fsize < 2 ^ 63)%N -> (off < 2 ^ 32)%N ->
+  go_next_sizes (Z.of_N ks) (Z.of_N w) (Z.of_N fsize) (Z.of_N off)
+  = (if (delbit <=? w)%N then 1 else 0, Z.of_N ks, Z.of_N (w mod delbit), Z.of_N (rec_overhead + ks + w mod delbit),
+     (fsize - off <? rec_overhead + ks + w mod delbit)%N).
+Proof. exact next_sizes_ok. Qed.
+Print Assumptions C19_go_next_sizes.
+
